@@ -267,6 +267,9 @@ class Timed(Monitor):
         wash_start = None
         bw = rinse = None
         set_bw, set_rinse = 120.0, 60.0
+        open_requested = False
+        # an actor that lags longer than the latency bound eats into the "(less 2 s)" allowance
+        slack = 2.0 + max([float(a[2]) for a in getattr(r, "actions", []) if a and a[0] in ("lag", "lagcmd")] + [0.0])
         for (t, kind, data) in r.world.log:
             if kind == "mqtt":
                 try:
@@ -276,10 +279,14 @@ class Timed(Monitor):
                         set_rinse = float(int(float(data[1])))
                 except (ValueError, TypeError):
                     pass
+                if data[0] == "/settings/mode" and data[1] in (b"standby", b"overflow", "standby", "overflow") and fstate in ("heating_running", "heating_delay"):
+                    open_requested = True
                 continue
             if kind == "publish" and data[0] == "/status/filtration/state":
                 prev = fstate
                 fstate = data[1]
+                if fstate == "heating_running":
+                    open_requested = False
                 if fstate == "halt":
                     heat_off_sched = None
                 nt = fstate in ("halt", "closing", "opening", "eco_waiting", "eco_tank", "standby_boost", "overflow_boost", "sweep", "backwash", "rinse", "wintering_stir", "wintering_waiting") or str(fstate).startswith(("closing_", "opening_"))
@@ -320,13 +327,13 @@ class Timed(Monitor):
                     on = [i for i, x in enumerate(lv) if not x]
                     new_speed = on[0] if len(on) == 1 else 0
                     if new_speed == 0 and speed > 0 and heat_off_sched is not None and fstate != "halt":
-                        need = d_eco if fstate in ("eco_compute", "eco_waiting", "eco_normal", "eco_tank") else d_open
-                        if (t - heat_off_sched) / 1e6 < need - 2:
+                        need = d_open if open_requested else d_eco
+                        if (t - heat_off_sched) / 1e6 < need - slack:
                             r.report("C06", "pump-stopped-too-early-after-heating", f"circulation pump stopped {(t - heat_off_sched) / 1e6:.1f} s after the heat pump was switched off (configured {need:.0f} s), filtration {fstate}")
                         heat_off_sched = None
                     speed = new_speed
             elif kind == "arduino" and data in ("open", "close"):
-                if heat_off_sched is not None and fstate != "halt" and (t - heat_off_sched) / 1e6 < d_open - 2:
+                if heat_off_sched is not None and fstate != "halt" and (t - heat_off_sched) / 1e6 < d_open - slack:
                     r.report("C06", "cover-moved-too-early-after-heating", f"cover command {data} {(t - heat_off_sched) / 1e6:.1f} s after the heat pump was switched off (configured {d_open:.0f} s)")
 
 
